@@ -192,7 +192,7 @@ def main():
     kf = [e for e in findings if e.get("kind") == "finding"]
     kf_w = [e["witness"] for e in kf if "witness" in e]
 
-    corpus = list(plugin.corpus()) + fixed_w + kf_w
+    corpus = list(plugin.corpus()) + fixed_w + kf_w + C.load_regression_corpus(pid)
     generated = list(plugin.generate(rng, tier))
     if res.pinned:
         # a generated table could not be re-read from the source and the pinned copy is in use: for this run the tie
